@@ -77,6 +77,9 @@ def extract(repo):
         if k not in lim:
             raise ValueError("limit %s not found" % k)
         r.append((k, "N", str(_eval(lim[k]))))
+    for k in ("minimum_transmit_window_size", "minimum_connection_interval", "maximum_connection_interval"):
+        if k in lim:     # present after the repair fix/C22-connect-timing-ranges
+            r.append((k, "N", str(_eval(lim[k].replace("us_per_digits", c["us_per_digits"])))))
     ret = re.search(r"return(.*?);", body, re.S).group(1)
     conj = [re.sub(r"\s+", " ", x.strip()) for x in ret.split("&&")]
     r.append(("timing_checks", "list string", "[" + "; ".join('"%s"%%string' % x for x in conj) + "]"))
